@@ -87,7 +87,7 @@ fn c14_enumerate(thorough: bool, f: &mut dyn FnMut(&[Line], Term)) {
 
 /// what one process observes for one input: (digest of the bytes, flags)
 /// flags: 1 = two consecutive writes differ, 2 = a write from a concurrent thread differs, 4 = length != header-implied length
-fn c14_observe(bytes: &[u8], with_threads: bool) -> (Vec<u8>, u64) {
+fn c14_observe(bytes: &[u8], with_threads: bool, with_failed: bool) -> (Vec<u8>, u64) {
     let a = cur::write_cache(bytes).expect("write");
     let b = cur::write_cache(bytes).expect("write");
     let mut flags = 0u64;
@@ -121,10 +121,41 @@ fn c14_observe(bytes: &[u8], with_threads: bool) -> (Vec<u8>, u64) {
             }
         }
     }
+    // history: a write that FAILED part-way (the sink refuses everything after k bytes) on this thread, then the
+    // same mapping written again - the bytes must not depend on what the failed call left behind
+    if with_failed {
+        for k in [0usize, 24, a.len() / 2, a.len().saturating_sub(1)] {
+            struct FailAfter(usize, usize);
+            impl std::io::Write for FailAfter {
+                fn write(&mut self, buf: &[u8]) -> std::io::Result<usize> {
+                    if self.1 + buf.len() > self.0 {
+                        let take = self.0 - self.1;
+                        if take == 0 {
+                            return Err(std::io::Error::new(std::io::ErrorKind::Other, "sink full"));
+                        }
+                        self.1 += take;
+                        return Ok(take);
+                    }
+                    self.1 += buf.len();
+                    Ok(buf.len())
+                }
+                fn flush(&mut self) -> std::io::Result<()> {
+                    Ok(())
+                }
+            }
+            let mapping = cur::ProguardMapping::new(bytes);
+            let _ = cur::ProguardCache::write(&mapping, &mut FailAfter(k, 0));
+            let c = cur::write_cache(bytes).expect("write");
+            if c != a {
+                flags |= 16;
+            }
+        }
+    }
     (a, flags)
 }
 
 const THREAD_STRIDE: u64 = 64;
+const FAILED_STRIDE: u64 = 4;
 
 /// worker: `pgmc c14-worker <quick|thorough> <outfile>`: (digest, flags) per state, preceded by the order probe
 pub fn c14_worker(args: &[String]) -> i32 {
@@ -137,7 +168,7 @@ pub fn c14_worker(args: &[String]) -> i32 {
     let mut n = 0u64;
     c14_enumerate(thorough, &mut |lines, term| {
         print_file_into(lines, term, &mut bytes);
-        let (a, flags) = c14_observe(&bytes, n % THREAD_STRIDE == 0);
+        let (a, flags) = c14_observe(&bytes, n % THREAD_STRIDE == 0, n % FAILED_STRIDE == 0);
         w.write_all(&h64(&a).to_le_bytes()).unwrap();
         w.write_all(&flags.to_le_bytes()).unwrap();
         n += 1;
@@ -154,7 +185,7 @@ pub fn c14_one(args: &[String]) -> i32 {
     let case = if v.get("case").is_some() { v["case"].clone() } else { v };
     let (lines, term) = file_from_json(&case);
     let bytes = print_file(&lines, term);
-    let (a, flags) = c14_observe(&bytes, true);
+    let (a, flags) = c14_observe(&bytes, true, true);
     println!("{} {}", flags, hex(&a));
     0
 }
@@ -183,6 +214,9 @@ fn flag_sigs(flags: u64) -> Vec<&'static str> {
     }
     if flags & 4 != 0 {
         v.push("length:differs-from-header");
+    }
+    if flags & 16 != 0 {
+        v.push("bytes-depend-on-an-earlier-failed-write");
     }
     v
 }
@@ -248,7 +282,7 @@ pub fn run_c14(tier: Tier) -> i32 {
         for (i, f) in flags.iter().enumerate() {
             for sig in flag_sigs(*f) {
                 let m = print_file(&states[i].0, states[i].1);
-                acc.violation(sig, m.len(), || (format!("process with {}: {} for state #{} (flags {}: 1 = consecutive writes differ, 2 = concurrent-thread writes differ, 4 = length, 8 = differs when the mapping bytes sit at another address modulo 8)", label, sig, i, f), mkcase(i)));
+                acc.violation(sig, m.len(), || (format!("process with {}: {} for state #{} (flags {}: 1 = consecutive writes differ, 2 = concurrent-thread writes differ, 4 = length, 8 = differs when the mapping bytes sit at another address modulo 8, 16 = differs after a write that failed part-way on the same thread)", label, sig, i, f), mkcase(i)));
             }
         }
         match &base {
@@ -278,7 +312,7 @@ pub fn run_c14(tier: Tier) -> i32 {
         prop: "C14",
         tier,
         level: "exploration",
-        rule: format!("inputs enumerated exhaustively (MS-B depth <= {}, MS-C, MS-D, wide family with >= 6 keys per hash container, corpus files); every input is written in {} separately started processes with harness-owned hash seeds (getrandom shim) and 2 processes with OS seeds; in every process: two consecutive writes, for every 64th input two more writes from concurrent threads and eight writes with the mapping bytes placed at every address residue modulo 8 (also for every input containing non-ASCII bytes), and the length check against the header. All byte strings for one input must be identical. evaluations = inputs; distinct = distinct cache files", if t { 5 } else { 4 }, nseeds),
+        rule: format!("inputs enumerated exhaustively (MS-B depth <= {}, MS-C, MS-D, wide family with >= 6 keys per hash container, corpus files); every input is written in {} separately started processes with harness-owned hash seeds (getrandom shim) and 2 processes with OS seeds; in every process: two consecutive writes, for every 64th input two more writes from concurrent threads and eight writes with the mapping bytes placed at every address residue modulo 8 (also for every input containing non-ASCII bytes), for every 4th input four writes that FAIL part-way (the sink refuses everything after 0 / 24 / len/2 / len-1 bytes) each followed by a complete write on the same thread, and the length check against the header. All byte strings for one input must be identical. evaluations = inputs; distinct = distinct cache files", if t { 5 } else { 4 }, nseeds),
         bounds: json!({"scopes": c14_spaces(t).iter().map(|s| { let mut d = s.describe(); if d.get("alphabet").is_some() { d["alphabet"] = json!("see pgmc/src/e1.rs"); } d }).collect::<Vec<_>>(), "processes": nprocs, "owned_seeds": nseeds, "distinct_iteration_orders": distinct_orders}),
         assumptions: vec!["the 2^128 seed space is not enumerable: seeds are a finite harness-owned set; exhaustive is the input dimension".into(), "std RandomState draws its per-thread keys through getrandom (interposed by the shim) and increments them for every new table".into()],
         trusted_base: vec!["rustc/std".into(), "getrandom shim /verif/shim/getrandom_shim.c".into()],
